@@ -55,6 +55,17 @@ def main():
     c = cls_of(req["cls"])
     o = build(req["input"])
     out = {"confirmed": False}
+    if req.get("field") == "__wire_unchanged__":
+        import copy
+        wire = json.loads(json.dumps(o.to_json_dict())) if req["route"] == "json" else o.to_dict()
+        before = copy.deepcopy(wire)
+        try:
+            (c.from_json_dict if req["route"] == "json" else c.from_dict)(wire)
+            changed = repr(before) != repr(wire)
+            print(json.dumps({"confirmed": changed, "wire_before": repr(before)[:500], "wire_after": repr(wire)[:500]}))
+        except Exception as e:
+            print(json.dumps({"confirmed": True, "diffs": [f"decode raised {e!r}"]}))
+        return
     try:
         if req["route"] == "json":
             back = c.from_json_dict(json.loads(json.dumps(o.to_json_dict())))
